@@ -63,6 +63,23 @@ fn check_list(l: &mut Law, reference: &[String], p: &Pointer) {
         let it2: Vec<String> = (&buf).into_iter().map(|t| t.encoded().to_string()).collect();
         l.ck(it2 == enc, "into_iter_ref_pointerbuf");
     }
+    {
+        // every `impl Into<Token>` form of the same list builds the same pointer: tokens by value, by reference
+        // (`&Vec<Token>`, `.iter()`), `&String`, owned `String`
+        let toks_v: Vec<Token> = p.tokens().collect();
+        l.ck(PointerBuf::from_tokens(&toks_v).as_str() == text, "from_tokens_ref_vec_of_tokens");
+        l.ck(PointerBuf::from_tokens(toks_v.iter()).as_str() == text, "from_tokens_iter_of_ref_tokens");
+        l.ck(PointerBuf::from_tokens(toks_v.clone()).as_str() == text, "from_tokens_vec_of_tokens");
+        l.ck(PointerBuf::from_tokens(reference.iter()).as_str() == text, "from_tokens_ref_strings");
+        l.ck(PointerBuf::from_tokens(reference.iter().cloned()).as_str() == text, "from_tokens_owned_strings");
+        if let Some(t) = toks_v.first() {
+            let mut b = PointerBuf::new();
+            b.push_back(t);
+            l.ck(b.as_str() == format!("/{}", t.encoded()), "push_back_ref_token");
+            l.ck(Pointer::root().with_trailing_token(t).as_str() == b.as_str(), "with_trailing_ref_token");
+            l.ck(Pointer::root().with_leading_token(t).as_str() == b.as_str(), "with_leading_ref_token");
+        }
+    }
     let root = text.is_empty();
     l.ck(p.is_empty() == root && p.is_root() == root, "is_root_is_empty");
     l.ck(root == (n == 0), "root_iff_no_tokens");
@@ -297,12 +314,17 @@ fn parse_bstep(f: &str) -> Option<BStep> {
 
 /// The token argument of a mutator step. `how` varies the way the text reaches `Token::new` (all `impl Into<Token>`
 /// forms must give the same token): 0 = borrowed `&str`, 1 = an owned `String` of exact capacity, 2 = an owned
-/// `String` with spare capacity, 3 = `&String` through `From<&String>`.
+/// `String` with spare capacity, 3 = `&String` through `From<&String>`, 4 = `&Token` through `From<&Token>`.
 fn mk_token(enc: bool, s: &str, how: usize) -> Token<'static> {
     if enc {
         return Token::from_encoded(s).expect("generator guarantees a valid encoded token").into_owned();
     }
-    match how % 4 {
+    match how % 5 {
+        4 => {
+            // a token handed on by reference (`From<&Token>`): must be the same token, not re-encoded
+            let t = Token::new(s);
+            Token::from(&t).into_owned()
+        }
         0 => Token::new(s).into_owned(),
         1 => Token::new(s.to_string()),
         2 => {
